@@ -7,9 +7,11 @@ import (
 	"errors"
 	"fmt"
 	"math"
+	"runtime"
 	"sort"
 	"strconv"
 	"strings"
+	"time"
 
 	openfgav1 "github.com/openfga/api/proto/openfga/v1"
 	"github.com/openfga/language/pkg/go/graph"
@@ -718,6 +720,31 @@ func (c *wgCtx) check0(cfg simrt.Config) ([]mismatch, simrt.Stats, string) {
 			}
 		}
 		if out.accepted() && wf {
+			// AssignWeights is a public method of the graph Build returned: a caller
+			// that runs it again gets the same graph again (last, on a graph nothing
+			// else looks at afterwards: compareWithRef below sees the result)
+			before := snapshot(out.G).text
+			func() {
+				defer func() {
+					if r := recover(); r != nil {
+						if simrt.IsAbort(r) {
+							panic(r)
+						}
+						add("C04", "weights.rerun", "", "AssignWeights panics when it is run again on the graph Build returned: %v", r)
+					}
+				}()
+				if err := out.G.AssignWeights(); err != nil {
+					for _, p := range []string{"C04", "C05", "C11", "C06"} {
+						add(p, "rerun.error", "", "AssignWeights on the graph Build returned fails the second time: %v", err)
+					}
+				} else if after := snapshot(out.G).text; after != before {
+					for _, p := range []string{"C04", "C11", "C06"} {
+						add(p, "rerun.graph", "", "running AssignWeights again on the graph Build returned changes it: %s", firstDiff(before, after))
+					}
+				}
+			}()
+		}
+		if out.accepted() && wf {
 			mm = append(mm, compareWithRef(out.G, c.ref)...)
 		} else if out.accepted() {
 			// not well-founded but accepted: the statement of C04 speaks of every
@@ -1004,6 +1031,108 @@ func biasKnobsProp(prop string, r *rng, k genKnobs) genKnobs {
 	return k
 }
 
+func mustJSON(v any) json.RawMessage {
+	b, _ := json.Marshal(v)
+	return b
+}
+
+// massRepetition builds the model under test n times on fresh builders, no
+// simulation attached, and reports the first build whose verdict differs.
+func massRepetition(c *wgCtx, n int) (msg string) {
+	defer func() {
+		if r := recover(); r != nil {
+			msg = fmt.Sprintf("build panicked during a long run of identical builds: %v", r)
+		}
+	}()
+	want := c.canon.verdict()
+	for i := 0; i < n; i++ {
+		_, err := graph.NewWeightedAuthorizationModelGraphBuilder().Build(c.pm)
+		got := "accepted"
+		if err != nil {
+			got = "rejected"
+		}
+		if i%1000 == 999 {
+			simrt.RunPendingFinalizers()
+		}
+		if got != want {
+			return fmt.Sprintf("build %d of %d identical builds in one process is %s (%v), the first was %s", i+1, n, got, err, want)
+		}
+	}
+	return ""
+}
+
+// renderParts renders nodes and edges a caller kept, without the graph.
+func renderParts(nodes []*graph.WeightedAuthorizationModelNode, edges []*graph.WeightedAuthorizationModelEdge) string {
+	var sb strings.Builder
+	for _, n := range nodes {
+		sb.WriteString(n.GetLabel() + "|" + strconv.Itoa(int(n.GetNodeType())) + "|" + fmtWeights(n.GetWeights()) + "|" + strings.Join(n.GetWildcards(), ",") + "\n")
+	}
+	for _, e := range edges {
+		f, t := "", ""
+		if e.GetFrom() != nil {
+			f = e.GetFrom().GetLabel()
+		}
+		if e.GetTo() != nil {
+			t = e.GetTo().GetLabel()
+		}
+		sb.WriteString(f + ">" + t + "|" + strconv.Itoa(int(e.GetEdgeType())) + "|" + e.GetTuplesetRelation() + "|" + strings.Join(e.GetConditions(), ",") + "|" + fmtWeights(e.GetWeights()) + "|" + strings.Join(e.GetWildcards(), ",") + "\n")
+	}
+	return sb.String()
+}
+
+var gcFinalizersRun int
+
+func retainedPartsAfterGC(c *wgCtx) (msg string) {
+	defer func() {
+		if r := recover(); r != nil {
+			msg = fmt.Sprintf("panic while reading retained nodes and edges: %v", r)
+		}
+	}()
+	var nodes []*graph.WeightedAuthorizationModelNode
+	var edges []*graph.WeightedAuthorizationModelEdge
+	// older garbage first, so that the graph built next is the most recently
+	// finalised one when its turn comes
+	runtime.GC()
+	for i := 0; i < 20; i++ {
+		runtime.Gosched()
+	}
+	gcFinalizersRun += simrt.RunPendingFinalizers()
+	func() {
+		g, err := graph.NewWeightedAuthorizationModelGraphBuilder().Build(proto.Clone(c.pm).(*openfgav1.AuthorizationModel))
+		if err != nil {
+			return
+		}
+		labels := make([]string, 0, len(g.GetNodes()))
+		for l := range g.GetNodes() {
+			labels = append(labels, l)
+		}
+		sort.Strings(labels)
+		for _, l := range labels {
+			nodes = append(nodes, g.GetNodes()[l])
+			edges = append(edges, g.GetEdges()[l]...)
+		}
+	}() // the graph itself is garbage from here on
+	if len(nodes) == 0 {
+		return ""
+	}
+	base := renderParts(nodes, edges)
+	for round := 0; round < 3; round++ {
+		runtime.GC()
+		for i := 0; i < 20; i++ {
+			runtime.Gosched() // the finalizer goroutine
+		}
+		time.Sleep(200 * time.Microsecond)
+		gcFinalizersRun += simrt.RunPendingFinalizers() // (queued by the runtime's finalizer goroutine, run here)
+		for i := 0; i < 3; i++ {
+			_, _ = graph.NewWeightedAuthorizationModelGraphBuilder().Build(proto.Clone(c.pm).(*openfgav1.AuthorizationModel))
+		}
+		if now := renderParts(nodes, edges); now != base {
+			return "nodes and edges of a graph that the caller kept (without keeping the graph) changed after a garbage collection and later builds: " + firstDiff(base, now)
+		}
+	}
+	return ""
+}
+
 type wgParams struct {
 	nRandom   int
 	tinyPerms bool
@@ -1027,6 +1156,9 @@ func wgRunOne(b *BatchResult, prop string, seed, run uint64, p wgParams) {
 	} else if r.chance(2) {
 		m = genSeparatorCollision(r)
 		b.Mix["separator_collision_models"]++
+	} else if r.chance(2) {
+		m = genOperatorLattice(r)
+		b.Mix["operator_lattice_models"]++
 	} else if r.chance(2) {
 		switch r.intn(5) {
 		case 4:
@@ -1068,6 +1200,33 @@ func wgRunOne(b *BatchResult, prop string, seed, run uint64, p wgParams) {
 	}
 	b.Workloads++
 	b.keySet[hashStr(modelKey(m))] = true
+	if run%2000 == 11 && !slow && c.canon.Panic == "" {
+		// mass repetition: the same small model a hundred thousand times in one
+		// process (counters that wrap, marks that are truncated, tables that fill
+		// up): every build must give the verdict of the first
+		b.Probes["mass_repetition_histories"]++
+		if msg := massRepetition(c, 70_000); msg != "" {
+			for _, p := range []string{"C06", "C05", "C04"} {
+				b.violation(Violation{Property: p, Engine: "wgsim", Class: "determinism.mass_repetition", Detail: msg, Seed: seed, Run: run,
+					Workload: mustJSON(wl), Sched: simrt.Config{}, SchedName: "canonical x 70000", Describe: m.describe()})
+			}
+		}
+	}
+	if r.chance(3) && !slow && c.canon.accepted() {
+		// a caller that keeps nodes and edges of a graph but not the graph: after
+		// a garbage collection (finalizers run) and further builds they still say
+		// what they said
+		b.Probes["retained_parts_after_gc"]++
+		gcFinalizersRun = 0
+		msg := retainedPartsAfterGC(c)
+		b.Probes["finalizers_run_in_gc_steps"] += int64(gcFinalizersRun)
+		if msg != "" {
+			for _, p := range []string{"C10", "C04", "C11", "C13"} {
+				b.violation(Violation{Property: p, Engine: "wgsim", Class: "structure.retained_parts_changed", Detail: msg, Seed: seed, Run: run,
+					Workload: mustJSON(wl), Sched: simrt.Config{}, SchedName: "canonical + gc", Describe: m.describe()})
+			}
+		}
+	}
 	nontriv := c.ref.nontrivial()
 	if nontriv {
 		b.Mix["nontrivial_models"]++
